@@ -211,21 +211,29 @@ fn expected_of<B: Fld, H: ElementHasher<BaseField = B>>(proof: &Proof, pubs: &Sp
     let lde = proof.lde_domain_size();
     let layers = proof.options().to_fri_options().num_fri_layers(lde);
     let (troots, croot, froots) = proof.commitments.clone().parse::<H>(nseg, layers).map_err(|e| format!("commitments: {e}"))?;
-    // OOD hashes, recomputed from the proof bytes with the extension the options name
+    // OOD hashes, recomputed from the proof bytes with the extension the options name - independently of the
+    // library's frame types: the absorbed value must be the hash of ALL out-of-domain trace evaluations the
+    // proof carries (main, auxiliary and Lagrange-kernel states, in proof order), then the hash of all
+    // constraint evaluations.
     fn ood<B: Fld, E: math::FieldElement<BaseField = B>, H: ElementHasher<BaseField = B>>(proof: &Proof, st: &Statement) -> Result<(Vec<u8>, Vec<u8>), String> {
-        let main_w = proof.trace_info().main_trace_width();
-        let aux_w = proof.trace_info().aux_segment_width();
-        let ncols = {
-            // number of composition columns = length of the evaluations component / element size
-            let b = proof.ood_frame.to_bytes();
-            let tl = u16::from_le_bytes([b[0], b[1]]) as usize;
-            let ll = u16::from_le_bytes([b[2 + tl], b[3 + tl]]) as usize;
-            let el = u16::from_le_bytes([b[4 + tl + ll], b[5 + tl + ll]]) as usize;
-            el / E::ELEMENT_BYTES
-        };
+        use utils::{ByteReader, SliceReader};
         let _ = st;
-        let (frame, evals) = proof.ood_frame.clone().parse::<E>(main_w, aux_w, ncols).map_err(|e| format!("ood: {e}"))?;
-        Ok((frame.hash::<H>().to_bytes(), H::hash_elements(&evals).to_bytes()))
+        let b = proof.ood_frame.to_bytes();
+        let mut r = SliceReader::new(&b);
+        let mut comp = |r: &mut SliceReader, skip: usize| -> Result<Vec<E>, String> {
+            let len = r.read_u16().map_err(|e| format!("ood: {e}"))? as usize;
+            let body = r.read_slice(len).map_err(|e| format!("ood: {e}"))?;
+            if len < skip || (len - skip) % E::ELEMENT_BYTES != 0 {
+                return Err(format!("ood: component of {len} bytes is not a whole number of elements"));
+            }
+            let mut br = SliceReader::new(&body[skip.min(len)..]);
+            br.read_many::<E>((len - skip.min(len)) / E::ELEMENT_BYTES).map_err(|e| format!("ood: {e}"))
+        };
+        let mut states = comp(&mut r, 1)?;
+        let lagrange = comp(&mut r, 1)?;
+        let evals = comp(&mut r, 0)?;
+        states.extend(lagrange);
+        Ok((H::hash_elements(&states).to_bytes(), H::hash_elements(&evals).to_bytes()))
     }
     let (ot, oe) = match st.opts.ext {
         1 => ood::<B, B, H>(proof, st)?,
@@ -464,9 +472,18 @@ impl<'a> PairFn for Conf<'a> {
         feeds.push((format!("commitment[{}]", ord), ord));
         let croot_ord = ord;
         ord += 1;
-        feeds.push(("ood.trace_state[0]".into(), ord));
+        // every out-of-domain value the proof carries feeds its message (not only the first one)
+        for f in lay.fields.iter() {
+            if f.name.starts_with("ood.trace_state[") || f.name.starts_with("ood.lagrange_state[") {
+                feeds.push((f.name.clone(), ord));
+            }
+        }
         ord += 1;
-        feeds.push(("ood.evaluation[0]".into(), ord));
+        for f in lay.fields.iter() {
+            if f.name.starts_with("ood.evaluation[") {
+                feeds.push((f.name.clone(), ord));
+            }
+        }
         for l in 0..=layers {
             ord += 1;
             feeds.push((format!("commitment[{}]", croot_ord + 1 + l), ord));
@@ -492,6 +509,42 @@ impl<'a> PairFn for Conf<'a> {
                     out.violation(format!("{pname}: a challenge drawn after a prover message does not depend on it"), json!({"case": info(), "message": fname, "event": i}));
                     break;
                 }
+            }
+        }
+        // the seed: every parameter of the proof context and of the options changes the initial state of the coin
+        {
+            let base_new = vlog.iter().find_map(|e| if let Ev::New(b) = e { Some(b.clone()) } else { None });
+            for f in lay.fields.iter().filter(|f| (f.comp == "context" || f.comp == "options") && !f.name.ends_with("_len")) {
+                let mut cands: Vec<(usize, u8)> = vec![];
+                if f.len == 1 {
+                    let o = bytes[f.off];
+                    for v in [o ^ 1, o.wrapping_add(1), o.wrapping_sub(1), o.wrapping_shl(1), o >> 1, 0, 1, 2, 3, 4, 8, 16] {
+                        if v != o && !cands.contains(&(f.off, v)) {
+                            cands.push((f.off, v));
+                        }
+                    }
+                } else {
+                    for k in 0..f.len {
+                        cands.push((f.off + k, bytes[f.off + k] ^ 1));
+                    }
+                }
+                let mut decided = 0;
+                for (off, v) in cands {
+                    let mut b2 = bytes.clone();
+                    b2[off] = v;
+                    let Ok(Ok(p2)) = kit::pan::catch(|| Proof::from_bytes(&b2)) else { continue };
+                    let _ = take_log();
+                    let _ = verify_with::<B, H, RecCoin<H>>(p2, &pubs, &lenient());
+                    let l2 = take_log();
+                    out.evals(1);
+                    let Some(new2) = l2.iter().find_map(|e| if let Ev::New(b) = e { Some(b.clone()) } else { None }) else { continue };
+                    decided += 1;
+                    if Some(&new2) == base_new.as_ref() {
+                        out.violation(format!("{pname}: the initial state of the coin does not depend on a parameter of the proof context ({})", f.name), json!({"case": info(), "field": f.name, "new_value": v}));
+                        break;
+                    }
+                }
+                out.class_n(if decided > 0 { "context parameter bound into the coin seed" } else { "context parameter: no other value reaches the coin" }, 1);
             }
         }
         // the seed: a different statement changes every challenge
